@@ -265,6 +265,50 @@ def main(argv):
                 if raw != want:
                     c.violation("after another session's refused request, a %s get() is not the minimal encoding of what was asked: %d octets, expected %d"
                                 % (sc["version"], len(raw), len(want)), {"datagram": raw_hex, "expected": want.hex()}, key="api-after-failure-encoding")
+    # ---- every 64-bit INTEGER also where the caller supplies it: getbulk(oid, max_repetitions=N) and the session default, for N
+    # on every power-of-two boundary of i64; the datagram is the minimal encoding of a GetBulk with exactly that N, or the
+    # call is refused and nothing is sent
+    ns = sorted({sgn * (2 ** k + d) for k in (0, 6, 7, 8, 14, 15, 16, 22, 23, 24, 30, 31, 32, 33, 39, 40, 47, 48, 55, 56, 62) for d in (-1, 0, 1) for sgn in (1, -1)}
+                | {2 ** 63 - 1, -2 ** 63, 2 ** 32 + 20, 10, 1})
+    ns = [n for n in ns if -2 ** 63 <= n < 2 ** 63]
+    bscs = []
+    for ver, mode in (("v2c", "sync"), ("v2c", "async"), ("v3", "sync")):
+        sc = {"version": ver, "mode": mode, "timeout": 0.03, "community": "public", "consume": ["for"], "steps": []}
+        if ver == "v3":
+            sc["v3"] = {"user": "u0", "auth": None, "priv": None, "engine_id": "80001f8880a1b2c3d4", "agent_engine_id": "80001f8880a1b2c3d4", "boots": 0, "time": 0}
+        for n in (ns if thorough or mode == "sync" else rng.sample(ns, 30)):
+            sc["steps"].append({"op": "getbulk", "args": ["1.3.6.1.2.1.2", n], "replies": [[{"vbs": ""}]], "cap": 2})
+        bscs.append(sc)
+    resb, logb = vf.run_api_worker("C15", {"scenarios": bscs})
+    if resb is None:
+        c.errors.append("API worker failed: " + logb[-1500:])
+    else:
+        for sc, rec in zip(bscs, resb["records"]):
+            if "driver_error" in rec:
+                c.errors.append("API driver error: " + rec["driver_error"])
+                continue
+            for st, out in zip(sc["steps"], rec["steps"]):
+                n = st["args"][1]
+                c.count(("api-getbulk-maxrep", sc["version"], sc["mode"], n), True)
+                if not out["emitted"]:
+                    if out.get("ending") in (None, "STOP", "CAP") and out["kind"] != "EXC":
+                        c.violation("getbulk(max_repetitions=%d) sent nothing and raised nothing" % n, {"scenario": dict(sc, steps=[st])}, key="api-maxrep-silent")
+                    continue
+                q, raw = out["requests"][0], bytes.fromhex(out["emitted"][0])
+                if "error" in q or not q.get("pdu"):
+                    c.violation("getbulk(max_repetitions=%d) goes out malformed: %s" % (n, q.get("error")), {"datagram": out["emitted"][0]}, key="api-maxrep-malformed")
+                    continue
+                # `max_repetitions or the session's default` (Model.Walk.effective_max_rep): 0 asks for the default
+                n_eff = n if n else vf.default_max_repetitions(sc["mode"])
+                p = ber.pdu(0xA5, q["pdu"]["request_id"], 0, n_eff, [ber.varbind(ber.enc_oid([1, 3, 6, 1, 2, 1, 2]), b"\x05\x00")])
+                if sc["version"] == "v3":
+                    want = ber.msg_v3(q["msg_id"], 0, ber.usm_params(bytes.fromhex("80001f8880a1b2c3d4"), 0, 0, b"u0", b"", b""),
+                                      ber.scoped_pdu(bytes.fromhex("80001f8880a1b2c3d4"), b"", p), max_size=vf.constant("V3_MAX_SIZE", 2048))
+                else:
+                    want = ber.msg_community(1, b"public", p)
+                if raw != want:
+                    c.violation("getbulk(max_repetitions=%d) on %s/%s is not the minimal encoding of what was asked: max-repetitions on the wire %s"
+                                % (n, sc["version"], sc["mode"], q["pdu"].get("f2")), {"datagram": out["emitted"][0], "expected": want.hex()}, key="api-maxrep-encoding")
     return c.finish(
         rule="OBJECT IDENTIFIER text encoder on every sub-identifier 2^(7k)-2..2^(7k)+1 and random OIDs; INTEGER: every value of 1..%d content octets, +-%d around every +-2^(8k-1), +-2^(8k), %d random; non-trivial = needs more than "
              "one content octet. OIDs and v1/v2c/v3 Get/GetNext/GetBulk messages with 0..120 OIDs, community/user/engine id lengths across "
